@@ -6,23 +6,33 @@
    use/destroy only of live objects, every block released exactly once (deallocate with the allocation size),
    nothing live or allocated at the end.  Scripts use the container variables 0..2 ([*regs_ok]) and stay within
    the preconditions the source does not check ([*ref_ok], see Properties_C13.v); the log is the one of the whole
-   script followed by the destructors of all container variables. *)
+   script followed by the destructors of all container variables.
+   Allocator instances: the container variables of a script live on different instances of a stateful allocator
+   (variable r starts on instance r); the model carries the instance with the container exactly as the source does
+   (swap exchanges it, copy/move construction take the source's).  Block [b] handed out by instance [a] is named
+   [enc a b]; a release through instance [a'] names [reenc a' blk], which is a live block only if a' = a -- so
+   [wf_closed] requires every block to be released into the instance that handed it out. *)
 From Coq Require Import List NArith Arith Bool.
 From FV Require Import Common.EventLog Seq.SlotModel Seq.VectorModel Seq.VectorProofs Seq.VectorLog
   Seq.StackModel Seq.ListModel Seq.DynArrayModel Seq.DynStackListProofs Seq.StackListLog Seq.DynArrayLog
   Seq.SmallVectorModel Seq.SmallVectorProofs Seq.SmallVectorLog.
 Import ListNotations.
 
-Theorem C16_vector_log_wf : forall esz ops, ref_ok rs0 ops -> Forall regs_ok ops ->
-  exists st outs e fin, vrun esz vst0 ops = Ok (st, outs, e) /\ vfinish st = Ok fin /\ wf_closed (e ++ fin) = true.
+Theorem C16_vector_log_wf : forall esz veq ops, ref_ok veq rs0 ops -> Forall regs_ok ops ->
+  exists st outs e fin, vrun esz veq vst0 ops = Ok (st, outs, e) /\ vfinish st = Ok fin /\ wf_closed (e ++ fin) = true.
 Proof. exact vector_log_wf. Qed.
 Print Assumptions C16_vector_log_wf.
 Example C16_vector_log_wf_ex :
   let ops := [VPush 0 1%N; VPush 0 2%N; VPush 0 3%N; VResize 0 7 0%N; VAssign 1 0; VPop 1; VMoveAssign 2 1; VSwap 0 2; VCopyCtor 1 0; VClear 2] in
-  ref_ok rs0 ops /\ Forall regs_ok ops /\
-  exists st outs e fin, vrun 24%N vst0 ops = Ok (st, outs, e) /\ vfinish st = Ok fin /\ wf_closed (e ++ fin) = true.
+  ref_ok N.eqb rs0 ops /\ Forall regs_ok ops /\
+  exists st outs e fin, vrun 24%N N.eqb vst0 ops = Ok (st, outs, e) /\ vfinish st = Ok fin /\ wf_closed (e ++ fin) = true.
 Proof. vm_compute. split; [repeat split; discriminate|]. split; [repeat constructor|]. do 4 eexists. repeat split. Qed.
 (* D08 as it was (relocation bound _capacity): the log of push x3; resize(7) is rejected *)
+(* a block handed out by instance 1 (name 5 = enc 1 1) released through instance 0 (name 4 = reenc 0 5): rejected *)
+Example C16_foreign_release_rejected :
+  reenc 0 (enc 1 1) = 4 /\ wf_log [EAlloc (enc 1 1) 16; EFree (reenc 0 (enc 1 1))] = false /\
+  wf_closed [EAlloc (enc 1 1) 16; EFree (reenc 1 (enc 1 1))] = true.
+Proof. vm_compute. repeat split. Qed.
 Example C16_vector_d08_log_rejected :
   wf_log [EAlloc 1 48; EConstruct (1, 0); EConstruct (1, 1); EAlloc 2 144; EUse (1, 0); EConstruct (2, 0); EUse (1, 1); EConstruct (2, 1);
           EDestroy (1, 0); EDestroy (1, 1); EFree 1; EConstruct (2, 2);
